@@ -893,7 +893,9 @@ class WorkflowConductor(object):
         # Identify the index for the task state object for later use.
         task_state_idx = self._get_task_state_idx(task_id, route)
 
-        # If task is already completed and in cycle, then create new task state entry.
+        # If task is already completed and in cycle, then create new task state entry. The task is
+        # staged again in that case. A late report of an item of the completed with items task, which
+        # is no longer staged or is flagged as completed in staging, is not a new cycle.
         # Unfortunately, the method in the graph to check for cycle is too simple and
         # misses forks that extends from the cycle. The check here assumes that the
         # last task entry is already completed and the new task status is one of the
@@ -902,6 +904,8 @@ class WorkflowConductor(object):
             task_state_entry.get("status") in statuses.COMPLETED_STATUSES
             and event.status
             and event.status in statuses.STARTING_STATUSES
+            and staged_task
+            and not staged_task.get("completed", False)
         ):
             task_state_entry = self.add_task_state(
                 task_id,
